@@ -253,6 +253,22 @@ def _montecarlo_table(ck: Checker, prog: Program, f):
         ck.ok("C14.R4", q, "unknown distribution names raise")
     else:
         ck.violation("C14.R4", q, "unknown names", "unknown distribution names are not refused before the realisations are drawn", loc=f.loc())
+    # a refusal of the numeric inputs may not take the zero-spread case away (closed-form clause of the property)
+    for l in leaves:
+        if l.exit != "raise":
+            continue
+        for x in literals(l):
+            for rel in [r_ for r_ in sp.preorder_traversal(x) if isinstance(r_, (sp.Ge, sp.Le, sp.Gt, sp.Lt))]:
+                if not rel.has(GS):
+                    continue
+                a_, b_ = rel.lhs, rel.rhs
+                strip = lambda t: t.args[0] if getattr(getattr(t, "func", None), "__name__", "") in ("asarray", "array", "min", "amin") and t.args else t   # noqa: E731
+                a_, b_ = strip(a_), strip(b_)
+                zero_ok = (isinstance(rel, sp.Le) and a_ == GS and b_ == 0) or (isinstance(rel, sp.Ge) and b_ == GS and a_ == 0)
+                if zero_ok:
+                    ck.violation("C14.R4", q, "zero standard deviation refused",
+                                 f"the function raises under `{rel}`: a generating standard deviation of exactly zero (for which the result must reduce to the closed-form "
+                                 f"weighted mean) is refused", loc=f.loc())
     rd = reaching(f)
     for p in ("distribution_generators", "distribution_spatial", "generator_weights"):
         uses = [n for n in own_nodes(f.node) if isinstance(n, ast.Name) and n.id == p and isinstance(n.ctx, ast.Load)]
@@ -429,6 +445,16 @@ def _spatial(ck: Checker, prog: Program):
             ck.violation("C14.R5", mm.qualname, f"decorator {extra[0]}", f"`@{extra[0]}` may cache results across boundaries", loc=mm.loc())
     ck.floor("C14.R5", n, 6, "methods of HvsrSpatial")
     init = cls.methods["__init__"]
+    # the coordinates are kept in double precision, in the order given (translated layouts 1e4 array extents away need it)
+    from .c15 import lossy_conversion
+    for st in own_nodes(init.node):
+        if isinstance(st, ast.Assign) and any(unparse(t) == "self.coordinates" for t in st.targets):
+            why = lossy_conversion(init, st)
+            if why is None:
+                ck.ok("C14.R5", init.qualname, "coordinates stored as given (double precision)", nontrivial=False)
+            else:
+                ck.violation("C14.R5", init.qualname, "coordinates", f"the sensor coordinates are not kept as given: {why} - weights would change under translation "
+                             f"of the layout", loc=init.loc(st))
     stores = sorted({unparse(t) for st in own_nodes(init.node) if isinstance(st, ast.Assign) for t in st.targets if unparse(t).startswith("self.")})
     if stores == ["self.coordinates"]:
         ck.ok("C14.R5", init.qualname, "the object holds only the coordinates", nontrivial=False)
